@@ -14,9 +14,10 @@ ASSUMPTIONS = ['OS-level read errors are represented by a reader that fails at a
                "bufio.Scanner's chunking is modelled only as 'which lines are delivered'"]
 
 CMDS = [(['reg'], ()), (['bal'], ()), (['csv', 'log'], ()), (['print'], ()), (['report', 'totals'], ()), (['report', 'quantity'], ()),
-        (['csv', 'database'], ()), (['csv', 'database-resolved'], ()), (['report', 'element-total'], ('calories',))]
-DB_ONLY = {'csv database', 'csv database-resolved', 'report element-total'}
-LOG_ONLY = {'csv log', 'print', 'report quantity'}
+        (['csv', 'database'], ()), (['csv', 'database-resolved'], ()), (['report', 'element-total'], ('calories',)),
+        (['summary'], ('2021/01/24',)), (['report', 'unresolved'], ()), (['lint'], ('food.yaml',)), (['lint'], ('log.yaml',))]
+DB_ONLY = {'csv database', 'csv database-resolved', 'report element-total', 'lint food.yaml'}
+LOG_ONLY = {'csv log', 'print', 'report quantity', 'lint log.yaml'}
 
 
 def run(ctx):
@@ -82,7 +83,7 @@ def run(ctx):
         log = g.log(book=book, exact=True, days=2, max_entries=3, unusual=0.1)
         files = base_files(g, book, log)
         for path, args in CMDS:
-            kind = ' '.join(path)
+            kind = ' '.join(path + [a for a in args if path == ['lint']])
             base = app(path, files, args=args, kind=kind)
             acases.append(base)
             targets = [b'food.yaml'] if kind in DB_ONLY else [b'log.yaml'] if kind in LOG_ONLY else [b'food.yaml', b'log.yaml']
@@ -104,6 +105,38 @@ def run(ctx):
                 c.meta['kind'], c.meta['target'], c.meta['k'], 'equals' if out_of(i) == out_of(b_) else 'is shorter than'), c,
                 {'out': out_of(i).decode('utf-8', 'replace')[:600], 'complete': out_of(b_).decode('utf-8', 'replace')[:600]}, signature='scanner-err-ignored')
         ctx.mark_nontrivial((sig(c.files), c.meta['kind'], c.meta['target'], c.meta['k']))
+    # --- command level, a line longer than the scanner's buffer in one of the two files (files on disk, so that commands
+    #     that open the files themselves, like stats, are covered)
+    dcases = []
+    for _ in range(3 if ctx.tier == 'quick' else 10):
+        book = g.book(depth=1, exact=True, per_layer=2, unusual=0.1)
+        if len(spec.book_map(book)) != len(book):
+            continue
+        log = g.log(book=book, exact=True, days=3, max_entries=3, unusual=0.1)
+        files = base_files(g, book, log)
+        for t in (b'food.yaml', b'log.yaml'):
+            lines = files[t].split(b'\n')
+            heads = [k for k, l in enumerate(lines) if l[:1] not in (b' ', b'\t', b'-', b'#', b'') and l.strip()]
+            if len(heads) < 2:
+                continue
+            at = r.choice(heads[1:]) if r.random() < 0.7 else heads[0]
+            long_line = b'  ' + b'x' * r.choice([65536, 70000, 131072]) + b': 1'
+            broken = dict(files)
+            broken[t] = b'\n'.join(lines[:at + 1] + [long_line] + lines[at + 1:])
+            for path, args in CMDS + [(['stats'], ())]:
+                kind = ' '.join(path + [a for a in args if path == ['lint']])
+                if (kind in DB_ONLY and t != b'food.yaml') or (kind in LOG_ONLY and t != b'log.yaml'):
+                    continue
+                c = app(path, broken, args=args, kind=kind + ' (long line)', disk=True)
+                c.meta.update({'target': t.decode()})
+                dcases.append(c)
+    impl4, model4 = run_apps(ctx, dcases)
+    for c in dcases:
+        i = impl4[c.id]
+        if i.get('status') == 'ok':
+            ctx.problem('oracle', '`%s` reports success although %s has a line longer than the scanner can read' % (c.meta['kind'], c.meta['target']), c,
+                        {'out': out_of(i).decode('utf-8', 'replace')[:600]}, signature='scanner-err-ignored')
+        ctx.mark_nontrivial((sig(c.files), c.meta['kind'], c.meta['target'], 'long'))
     ctx.sample({'cmd': acases[1].shell(), 'readFail': acases[1].read_fail and {k.decode(): v for k, v in acases[1].read_fail.items()}})
     # --- real binary: a directory given as log file, a missing file
     from .. import core
